@@ -35,7 +35,7 @@ else:
     try:
         for c in [PID] + others:
             t = time.time()
-            rcc, oc = sh('./check %s quick' % c, cwd='/verif', timeout=3000)
+            rcc, oc = sh('VERIF_EVIDENCE_DIR=/verif/build/seed-evidence ./check %s quick' % c, cwd='/verif', timeout=3000)
             v = [l for l in oc.split('\n') if l.startswith('VIOLATION')]
             last = [l for l in oc.split('\n') if l.strip() and not l.startswith('KNOWN')][-1:]
             verdicts[c] = dict(exit=rcc, violation_line=(v[0] if v else None), summary=(last[0] if last else ''), wall_s=round(time.time() - t))
